@@ -203,7 +203,19 @@ def main():
                         break
                     st = [int(st)] if d == 1 else [int(v) for v in st]
                     outs.append(st)
-                ev.append({"e": "Enum", "Ls": list(Ls), "Rs": list(Rs), "out": outs, "exhausted": exhausted, "ok": 1, "cap": max_logged})
+                e = {"e": "Enum", "Ls": list(Ls), "Rs": list(Rs), "out": outs, "exhausted": exhausted, "ok": 1, "cap": max_logged, "out2": [], "again": 0}
+                if max_logged >= 0 and exhausted:
+                    # the sampler restarts from its storage cap after a pass that ran to exhaustion: the same manager must
+                    # hand out, again, every state from that position on
+                    outs2, again = [], 0
+                    for x in range(max_logged, max_logged + 10 * int(np.prod([Ls[i] + Rs[i] + 1 for i in range(d)])) + 10):
+                        st, brk = sm.project_index_to_state_increment(x, max_logged)
+                        if brk:
+                            again = 1
+                            break
+                        outs2.append([int(st)] if d == 1 else [int(v) for v in st])
+                    e["out2"], e["again"] = outs2, again
+                ev.append(e)
         except Exception as ex:
             ev.append({"e": "Enum", "Ls": list(Ls), "Rs": list(Rs), "out": [], "exhausted": 0, "ok": 0, "what": type(ex).__name__})
         add("enum", ev, signed=1, dim=d)
